@@ -162,6 +162,10 @@ def raw_binop(ex: Exec, op, a: SV, b: SV) -> SV:
 # ---------------------------------------------------------------------------
 # hooks (extended by property-specific library models)
 
+# method name -> (field through which the written object is reached, heap maps written)
+METHOD_WRITES: dict[str, tuple[str, tuple[str, ...]]] = {}
+# modules whose functions only allocate (numpy, math, ...): loops calling them write nothing that exists
+PURE_MODULES = {"np", "numpy", "math", "pd", "pandas", "sympy", "copy", "it", "itertools", "LOGGER", "_LOGGER", "logging"}
 ATTR_HOOKS: list = []
 METHOD_HOOKS: list = []
 CALL_HOOKS: list = []
